@@ -28,3 +28,19 @@ prop('C02', units=['syn'], level='proof',
                   'function of the syntax crate, and that every recorded SyntaxError has a non-empty message and a range inside the text on '
                   'char boundaries. The linear work bound is implied by fuel only per loop iteration and is not separately proved.'),
      assumptions=SYN_ASSUME)
+
+prop('C14', units=['syn'], level='proof',
+     explanation=('Verus proves that Lexer::next_token agrees with an independent reference lexer ref_lex (contracts/syn/lexspec.rs, written from the '
+                  'TableGen Programmer\'s Reference / TGLexer: identifiers incl. digit-leading, decimal/hex/binary integers, strings with escapes, code '
+                  'fragments, $names, all keywords and bang operators, punctuation, blanks, line comments, nested block comments, # directives) on every '
+                  'position where the reference yields a valid token: same kind, same end, never Error. Each sub-scanner carries a functional '
+                  'postcondition (maximal-munch runs via scan(), str_end, bc_end, find2, keyword/bang tables); the sequence form (a separated sequence of '
+                  'valid tokens is split into exactly those tokens) is the proved lemma lex_sequence over that per-call contract.'),
+     assumptions=SYN_ASSUME + [
+         'interpret_number is external_body with the assumed contract ret.is_some() == num_ok(text): the 64-bit range check of integer literals is not verified',
+         'char::is_alphabetic restricted to ASCII is the ASCII letters (axiom ax_alphabetic); char::is_whitespace per vstd',
+         'pattern functions passed to the scanner return a value satisfying their own postcondition (operational reading of unscanny patterns)',
+         'two &str with equal chars are equal (ax_str_inj)',
+         'R12: the closure literal in number() is bound to a local in the verified text so that ghost code can name it',
+         'left unclaimed by the reference (ref_lex = None): 0x/0b look-alikes such as 0xg or 12x3, `#word` directly followed by a non-blank, invalid escapes, unterminated strings/comments, non-ASCII whitespace',
+     ])
